@@ -256,7 +256,12 @@ func runOrigin(w *world, j *judge, cs childSpec) error {
 		return err
 	}
 	targets := append(diagTargets(), target{"/api/v1/verif/e/2/3", mTarget{"endpoint", mUser, mAdmin}}, target{"/verif/none", mTarget{"noroute", 0, 0}})
-	origins := originVariants()
+	var origins []string
+	for i, or := range append(originVariants(), devNearMissOrigins()...) {
+		if cs.NShards <= 1 || i%cs.NShards == cs.Shard {
+			origins = append(origins, or)
+		}
+	}
 	// Host header variants: with and without port, IP literal, local name; the Origins are
 	// derived from each Host (same host:port, same name with another / no / default port, foreign)
 	var fewer []prepared
@@ -266,6 +271,16 @@ func runOrigin(w *world, j *judge, cs childSpec) error {
 		}
 	}
 	hostVars := []string{"api.verif.test", "127.0.0.1:8817", "localhost:817", "[::1]:817", "verif-host"}
+	if cs.NShards > 1 {
+		// the Host-variant block is spread over the shards as well
+		var mineH []string
+		for i, h := range hostVars {
+			if i%cs.NShards == cs.Shard {
+				mineH = append(mineH, h)
+			}
+		}
+		hostVars = mineH
+	}
 	hostOrigins := func(h string) []string {
 		name, _ := splitHostPort(h)
 		return []string{"http://" + h, "https://" + h, "http://" + name, "http://" + name + ":9999", "https://" + name + ":443", "http://" + name + ":80",
@@ -359,6 +374,19 @@ func runDev(w *world, j *judge, cs childSpec) error {
 			}
 		}
 	}
+	// development mode, Origins near the documented local names: only localhost and
+	// 127.0.0.1 themselves are the exception, everything else stays cross-origin
+	near := devNearMissOrigins()
+	w.b.Count("table_cells_planned", int64(len(ps)*len(diagTargets())*len(methodVars)*len(near)))
+	for _, or := range near {
+		for _, p := range ps {
+			for _, t := range diagTargets() {
+				for _, mv := range methodVars {
+					j.tableCell("dev-origin", p, t, mv, or)
+				}
+			}
+		}
+	}
 	// full access must be gone once development mode is switched off again
 	if err := w.setDev(false); err != nil {
 		return err
@@ -432,6 +460,11 @@ func runReplay(w *world, j *judge, cs childSpec) error {
 	case "revoke":
 		cs.N = 5
 		return runRevoke(w, j, cs)
+	case "keyperm":
+		return runKeyPerm(w, j, cs)
+	case "expired-repeat", "expired-repeat-after-clean":
+		cs.N = 20
+		return runExpiredTwice(w, j, cs)
 	case "poison", "poison-after":
 		return runPoison(w, j, cs)
 	case "sessclean":
